@@ -312,11 +312,12 @@ def build(case):
 
     def res(v):
         return auto[v['auto']] if isinstance(v, dict) else v
-    for a in case['adds']:
+    for k_, a in enumerate(case['adds']):
         pd = {k: res(v) for k, v in a['params'].items()}
         if a['idx'] is not None:
             pd['idx'] = a['idx']
         got = ss.add(a['model'], pd)
+        auto['#%d' % k_] = got        # the idx the device really has (a requested idx that collides is replaced)
         if a['ref']:
             auto[a['ref']] = got
     for n in case.get('collate', []):
@@ -713,9 +714,9 @@ def oracle_inputs(ss, case, auto):
         if isinstance(j, str) or isinstance(i, str):
             return isinstance(j, str) and isinstance(i, str) and j == i
         return j == i
-    for a in case['adds']:
+    for k_, a in enumerate(case['adds']):
         m = ss.models[a['model']]
-        my = a['idx'] if a['idx'] is not None else auto.get(a['ref'])
+        my = auto.get('#%d' % k_)
         pos = [k for k, j in enumerate(m.idx.v) if same(j, my)]
         if len(pos) != 1:
             continue
